@@ -164,14 +164,15 @@ def build(desc, seq_backend="numpy"):
                 s[c[1]] = inner
         nested = any(c[0] == "seq" for c in desc[2])
         if nested or seq_backend == "iterdata":
+            def typed(c, x):
+                # IterData infers the column types from the values: use typed numpy scalars
+                return x if c[2] == "S" else np.dtype(NP[c[2]]).type(x)
             rows = []
             for row in desc[3]:
-                rows.append(tuple(cell if c[0] == "base" else [tuple(r) for r in cell] for c, cell in zip(desc[2], row)))
+                rows.append(tuple(typed(c, cell) if c[0] == "base" else
+                                  [tuple(typed(cc, x) for cc, x in zip(c[2], r)) for r in cell]
+                                  for c, cell in zip(desc[2], row)))
             s.data = IterData(rows, s)
-            # IterData carries no dtype: give every column its declared numpy type
-            for c in desc[2]:
-                if c[0] == "base":
-                    s[c[1]]._dtype_hint = c[2]
         else:
             dt = []
             for j, c in enumerate(desc[2]):
